@@ -31,6 +31,10 @@ func main() {
 		cmdBt(os.Args[2:])
 	case "gcsconc":
 		cmdGcsConc(os.Args[2:])
+	case "robustmix":
+		cmdRobustMix(os.Args[2:])
+	case "robust":
+		cmdRobust(os.Args[2:])
 	case "btcrash":
 		cmdBtCrash(os.Args[2:])
 	case "btscan":
